@@ -282,8 +282,6 @@ class Inst:
                 val = ap[1]
                 if self.hit(0.25):
                     val = rng.choice([0, 2, "k", "j", [1, 0], [0, 1]])
-                    if isinstance(ap[1], int) and isinstance(val, list):
-                        val = 7                       # a scalar pattern against a list attribute raises TypeError: C06 finding probe is separate
                 if not self.hit(0.1):
                     attrs.append([name, val])
             else:
@@ -417,6 +415,7 @@ def cases(ctx):
     yield from corpus()
     yield from const_family(ctx)
     yield from or_scope_family(ctx)
+    yield from committed_family(ctx)
     yield from sweep(ctx)
     if ctx.tier == "quick":
         n_pat, hosts = 200, (1, 4, 1)
@@ -753,3 +752,99 @@ def sweep(ctx):
         if commute:
             for h in rng.sample(hosts, min(len(hosts), 40 if ctx.tier == "quick" else 300)):
                 yield p, h, True, "sweep-commute", {"coq_rate": rate, "cache_host": True}
+
+
+def double_host(rng, pdesc, perturb):
+    """Two instantiations of the pattern in one graph (sharing the values of some variables): several candidates for
+    every output node after the first, so that the order of the candidate tuples matters."""
+    i1 = Inst(rng, pdesc, False)
+    h1 = i1.host()
+    i2 = Inst(rng, pdesc, perturb)
+    i2.next = i1.next
+    if rng.random() < 0.7:
+        i2.var_val = {k: v for k, v in i1.var_val.items() if rng.random() < 0.7}
+    h2 = i2.host()
+    first, second = (h1, h2) if rng.random() < 0.5 or any(v in {o for n in h1["nodes"] for o in n["outs"]}
+                                                            for v in i2.var_val.values() if v is not None) else (h2, h1)
+    consts = dict(h1["consts"])
+    consts.update(h2["consts"])
+    return {"nodes": first["nodes"] + second["nodes"], "inputs": sorted(set(h1["inputs"]) | set(h2["inputs"])),
+            "outs": list(dict.fromkeys(first["outs"] + second["outs"])), "consts": consts}
+
+
+def committed_family(ctx):
+    """OrValue together with every other feature (constant / two-output / attribute / optional-input alternatives, nested
+    and shared OrValues, name and tag, OrValue below several output nodes, commute), hosts instantiated through each
+    alternative, perturbed (the committed first alternative whose bindings clash later), and doubled (several candidates
+    per output node); and OR-free patterns with several output nodes and shared interior nodes on doubled hosts."""
+    rng = ctx.rng
+    X, Y, Z = ["var", "x"], ["var", "y"], ["var", "z"]
+    C1 = ["const", 1.0, 1e-3, None]
+    pats = []
+
+    def add(nodes, ors=(), outs=None, commute=False):
+        pats.append((_pat(nodes, outs, ors), commute))
+
+    for tag in (None, "tg"):
+        for name in (None, "o"):
+            b = {"name": name, "tagv": tag}
+            # a constant / a variable among the alternatives (the variable always matches: later alternatives are dead)
+            add([{"op": "Relu", "ins": [X]}, {"op": "Sub", "ins": [["or", 0], Y]}], [dict(b, alts=[C1, ["out", 0, 0]])])
+            add([{"op": "Relu", "ins": [X]}, {"op": "Sub", "ins": [Y, ["or", 0]]}], [dict(b, alts=[["out", 0, 0], C1, X])])
+            # outputs of a two-output node as alternatives; a two-output node against a one-output node
+            add([{"op": "Split", "ins": [X], "outs": 2}, {"op": "Add", "ins": [["or", 0], Y]}], [dict(b, alts=[["out", 0, 1], ["out", 0, 0]])])
+            add([{"op": "Split", "ins": [X], "outs": 2}, {"op": "Relu", "ins": [X]}, {"op": "Neg", "ins": [["or", 0]]}],
+                [dict(b, alts=[["out", 0, 1], ["out", 1, 0]])])
+            # the same operator with different attribute patterns (backtracking), attribute variable shared with the outside
+            add([{"op": "Relu", "ins": [X], "attrs": [["axis", ["c", 1]]]}, {"op": "Relu", "ins": [X], "attrs": [["axis", ["v", "a"]]], "other_attrs": False},
+                 {"op": "Neg", "ins": [["or", 0]], "attrs": [["axis", ["ov", "a"]]]}], [dict(b, alts=[["out", 0, 0], ["out", 1, 0]])])
+            # optional / None inputs and allow_other_inputs inside alternatives
+            add([{"op": "Add", "ins": [X, ["ovar", "u"]]}, {"op": "Add", "ins": [X, Y, None], "other_ins": None},
+                 {"op": "Sub", "ins": [["or", 0], X]}], [dict(b, alts=[["out", 0, 0], ["out", 1, 0]])])
+            add([{"op": "Relu", "ins": [X], "other_ins": True}, {"op": "Relu", "ins": [Y, ["ovar", "u"]]},
+                 {"op": "Sub", "ins": [X, ["or", 0]]}], [dict(b, alts=[["out", 1, 0], ["out", 0, 0]])])
+            # nested and shared OrValues
+            add([{"op": "Relu", "ins": [X]}, {"op": "Neg", "ins": [X]}, {"op": "Sub", "ins": [["or", 1], Y]}],
+                [{"alts": [["out", 0, 0], ["out", 1, 0]]}, dict(b, alts=[["or", 0], Y])])
+            add([{"op": "Relu", "ins": [X]}, {"op": "Neg", "ins": [X]}, {"op": "Sub", "ins": [["or", 0], ["or", 0]]}],
+                [dict(b, alts=[["out", 0, 0], ["out", 1, 0]])])
+            # the committed first alternative whose binding clashes later (Witness.p_choice) and its mirror
+            add([{"op": "Neg", "ins": [X]}, {"op": "Neg", "ins": [X]}, {"op": "Neg", "ins": [["out", 1, 0]]},
+                 {"op": "Add", "ins": [["or", 0], X]}], [dict(b, alts=[["out", 0, 0], ["out", 2, 0]])])
+            add([{"op": "Neg", "ins": [X]}, {"op": "Neg", "ins": [X]}, {"op": "Neg", "ins": [["out", 1, 0]]},
+                 {"op": "Sub", "ins": [X, ["or", 0]]}], [dict(b, alts=[["out", 2, 0], ["out", 0, 0]])])
+            # OrValue below several output nodes; an alternative that is itself an output (its producer is an output node
+            # reached only through the OrValue)
+            add([{"op": "Relu", "ins": [X]}, {"op": "Neg", "ins": [X]}, {"op": "Sub", "ins": [["or", 0], Y]}, {"op": "Add", "ins": [X, Y]}],
+                [dict(b, alts=[["out", 0, 0], ["out", 1, 0]])], outs=[["out", 2, 0], ["out", 3, 0]])
+            add([{"op": "Relu", "ins": [X]}, {"op": "Neg", "ins": [["out", 0, 0]]}, {"op": "Sub", "ins": [["or", 0], ["out", 0, 0]]}],
+                [dict(b, alts=[["out", 1, 0], Y])], outs=[["out", 2, 0], ["out", 1, 0]])
+            # commute over an OrValue
+            add([{"op": "Relu", "ins": [X]}, {"op": "Neg", "ins": [X]}, {"op": "Add", "ins": [["or", 0], Y]}],
+                [dict(b, alts=[["out", 0, 0], ["out", 1, 0]])], commute=True)
+            add([{"op": "Relu", "ins": [X]}, {"op": "Mul", "ins": [["or", 0], C1]}], [dict(b, alts=[["out", 0, 0], Y])], commute=True)
+    # OR-free, several output nodes, shared interior nodes
+    T = ["out", 0, 0]
+    add([{"op": "Relu", "ins": [X]}, {"op": "Neg", "ins": [T]}, {"op": "Sub", "ins": [T, Y]}], outs=[["out", 1, 0], ["out", 2, 0]])
+    add([{"op": "Relu", "ins": [X]}, {"op": "Neg", "ins": [T]}, {"op": "Neg", "ins": [T]}], outs=[["out", 1, 0], ["out", 2, 0]])
+    add([{"op": "Split", "ins": [X], "outs": 2}, {"op": "Relu", "ins": [["out", 0, 0]]}, {"op": "Neg", "ins": [["out", 0, 1]]}, {"op": "Add", "ins": [Y, Z]}],
+        outs=[["out", 1, 0], ["out", 2, 0], ["out", 3, 0]])
+    add([{"op": "Relu", "ins": [X], "attrs": [["axis", ["v", "a"]]]}, {"op": "Relu", "ins": [Y], "attrs": [["axis", ["v", "a"]]]}],
+        outs=[["out", 0, 0], ["out", 1, 0]])
+    add([{"op": "Add", "ins": [X, C1]}, {"op": "Add", "ins": [X, ["ovar", "u"], None]}], outs=[["out", 0, 0], ["out", 1, 0]])
+    add([{"op": "Relu", "prefix": True, "ins": [X]}, {"op": "Neg", "prefix": True, "ins": [X]}], outs=[["out", 0, 0], ["out", 1, 0]])
+    if ctx.tier == "quick":
+        pats = rng.sample(pats, 34)
+        n_exact, n_pert, n_double = 4, 5, 3
+    else:
+        n_exact, n_pert, n_double = 10, 14, 8
+    for p, commute in pats:
+        hs = hosts_for(rng, p, n_exact, n_pert, 0)
+        for k in range(n_double):
+            h = double_host(rng, p, k % 2 == 1)
+            if h["nodes"] and toposort_ok(h):
+                hs.append(h)
+        if commute:
+            hs += hosts_for(rng, swapped(rng, p), 2, 2, 0)
+        for h in hs:
+            yield p, h, commute, "committed", {"coq_rate": 0.5}
